@@ -616,7 +616,9 @@ pub fn check(tier: &str) -> i32 {
     let bindir = match build_examples(&rep) { Some(b) => b, None => return rep.finish("exploration", json!({"evaluations": 0, "distinct_nontrivial": 0, "rule": "build failed", "samples": []}), vec![]) };
     let scratch = format!("{}/ex-scratch/{}", std::env::var("VERIF_BUILD").unwrap_or_else(|_| format!("{}/.build", verif_dir())), std::process::id());
     let _ = std::fs::create_dir_all(&scratch);
-    let exs = examples(th);
+    let mut exs = examples(th);
+    // the cheapest examples first: what they leave of their share of the budget goes to the larger ones
+    exs.sort_by_key(|e| (e.count + e.extra.len() as u64) * e.arg_sets.len() as u64);
     start_watchdog();
     let total_budget = if th { 2400.0 } else { 50.0 };
     let t0 = Instant::now();
